@@ -5,30 +5,47 @@ import SquidModel.Rock.Invariant
 
 namespace SquidModel.Rock
 
-theorem InvCore.congr {cfg : Cfg} {pL pC : Int} {ex : Option Nat} {st st' : St} (h : InvCore cfg pL pC ex st)
-    (hle : st'.le = st.le) (hls : st'.ls = st.ls) (han : st'.an = st.an) (hsl : st'.sl = st.sl) : InvCore cfg pL pC ex st' := by
-  refine h.of_ls_change hle han hsl ?_ ?_ ?_ (Int.le_refl _) (Int.le_refl _)
-  · intro x; rw [hls]; exact ⟨rfl, rfl, id⟩
-  · intro x _ _; rw [hls]
-  · intro x hx; rw [hls]; exact (h.fresh x hx).1
+theorem InvCore.congr {cfg : Cfg} {pL pC : Int} {ex : Option Nat} {st st' : St} (h : InvCore cfg img pL pC ex st)
+    (hle : st'.le = st.le) (hls : st'.ls = st.ls) (han : st'.an = st.an) (hsl : st'.sl = st.sl) (hfree : st'.free = st.free) :
+    InvCore cfg img pL pC ex st' :=
+  ⟨by rw [hls, hsl]; exact h.fresh, by rw [hle]; exact h.noIgn, by rw [hle, han]; exact h.idle,
+   by
+     intro f hf
+     rw [hle] at hf
+     obtain ⟨hw, ⟨L, hL⟩, hs⟩ := h.loading f hf
+     exact ⟨by rw [han]; exact hw, ⟨L, hL.transfer (by rw [han]) (Int.le_refl _) (fun x _ => by rw [hls]; exact ⟨rfl, rfl, rfl⟩)⟩,
+       by rw [han, hle]; exact hs⟩,
+   by
+     intro f hf
+     rw [hle] at hf
+     obtain ⟨hw, C, hC⟩ := h.loaded f hf
+     exact ⟨by rw [han]; exact hw, C, hC.transfer (by rw [han]) (by rw [hle]) (Int.le_refl _)
+       (fun x hx => ⟨by rw [hsl], by rw [hls]; exact hC.fin x hx⟩) (fun x hx => by rw [hls]; exact (hC.cells x hx).1)
+       (fun _ x _ a b c => ⟨by rw [hls]; exact a, by rw [hls]; exact b, by rw [hfree]; exact c⟩)⟩,
+   by
+     have hnext : st'.next = st.next := by funext x; simp [St.next, hsl]
+     rw [hle, han, hnext]; exact h.disj,
+   by rw [hfree, hls]; exact h.fz, by rw [hls, hsl]; exact h.disk⟩
 
-theorem InvCore.mono {cfg : Cfg} {pL pC pC' : Int} {ex : Option Nat} {st : St} (h : InvCore cfg pL pC ex st) (hp : pC ≤ pC') :
-    InvCore cfg pL pC' ex st := by
-  refine h.of_ls_change rfl rfl rfl ?_ ?_ ?_ (Int.le_refl _) hp
-  · intro x; exact ⟨rfl, rfl, id⟩
-  · intro x _ _; rfl
-  · intro x hx; exact (h.fresh x hx).1
+theorem InvCore.mono {cfg : Cfg} {pL pC pC' : Int} {ex : Option Nat} {st : St} (h : InvCore cfg img pL pC ex st) (hp : pC ≤ pC') :
+    InvCore cfg img pL pC' ex st :=
+  ⟨h.fresh, h.noIgn, h.idle, h.loading,
+   fun f hf => ⟨(h.loaded f hf).1, (h.loaded f hf).2.choose,
+     (h.loaded f hf).2.choose_spec.transfer rfl rfl hp (fun x hx => ⟨rfl, (h.loaded f hf).2.choose_spec.fin x hx⟩)
+       (fun x hx => ((h.loaded f hf).2.choose_spec.cells x hx).1) (fun _ x _ a b c => ⟨a, b, c⟩)⟩,
+   h.disj, h.fz, h.disk⟩
 
 /-- entering the exempt mode is a weakening -/
-theorem InvCore.exempt {cfg : Cfg} {pL pC : Int} {ex : Option Nat} {st : St} (h : InvCore cfg pL pC none st) :
-    InvCore cfg pL pC ex st :=
+theorem InvCore.exempt {cfg : Cfg} {pL pC : Int} {ex : Option Nat} {st : St} (h : InvCore cfg img pL pC none st) :
+    InvCore cfg img pL pC ex st :=
   ⟨h.fresh, h.noIgn, h.idle, fun f hf => ⟨(h.loading f hf).1, (h.loading f hf).2.1, fun _ => (h.loading f hf).2.2 (by simp)⟩,
-   h.loaded, h.disj⟩
+   h.loaded, h.disj, h.fz, h.disk⟩
 
 /-- leaving it needs the size clause of the exempt entry (if that is still Loading) -/
-theorem InvCore.close {cfg : Cfg} {pL pC : Int} {f : Nat} {st : St} (h : InvCore cfg pL pC (some f) st)
-    (hs : (st.le f).state = .loading → (st.an f).sfs = 0 ∨ (st.le f).size < (st.an f).sfs) : InvCore cfg pL pC none st := by
-  refine ⟨h.fresh, h.noIgn, h.idle, fun k hk => ⟨(h.loading k hk).1, (h.loading k hk).2.1, fun _ => ?_⟩, h.loaded, h.disj⟩
+theorem InvCore.close {cfg : Cfg} {pL pC : Int} {f : Nat} {st : St} (h : InvCore cfg img pL pC (some f) st)
+    (hs : (st.le f).state = .loading → (st.an f).sfs = 0 ∨ (st.le f).size < (st.an f).sfs) : InvCore cfg img pL pC none st := by
+  refine ⟨h.fresh, h.noIgn, h.idle, fun k hk => ⟨(h.loading k hk).1, (h.loading k hk).2.1, fun _ => ?_⟩, h.loaded, h.disj,
+    h.fz, h.disk⟩
   by_cases hkf : k = f
   · subst hkf; exact hs hk
   · exact (h.loading k hk).2.2 (by simpa using fun e => hkf e.symm)
@@ -40,18 +57,18 @@ theorem loadingWith_length {pL : Int} {st : St} {f : Nat} {L : List Int} {n : Na
 /-! ### freeBadEntry / finalizeOrFree on an entry in the middle of addSlotToEntry (or during validation) -/
 
 theorem freeBad_inv {cfg : Cfg} {g : Geo} {pos pL pC : Int} {ex : Option Nat} {st : St} {f : Nat}
-    (h : InvCore cfg pL pC ex st) (hf : (st.le f).state = .loading) (hpL : pL ≤ g.slots) :
-    Sat (freeBadEntry g pos st f) (fun st' => InvCore cfg pL pC ex st' ∧ (st'.le f).state = .corrupted) := by
+    (h : InvCore cfg img pL pC ex st) (hf : (st.le f).state = .loading) (hpL : pL ≤ g.slots) :
+    Sat (freeBadEntry g pos st f) (fun st' => InvCore cfg img pL pC ex st' ∧ (st'.le f).state = .corrupted) := by
   obtain ⟨_, ⟨L, hL⟩, _⟩ := h.loading f hf
   refine Sat.mono (freeBadEntry_sat g pos st f L hL.chain (loadingWith_length hL hpL)) ?_
   intro st' hp
-  exact ⟨h.freeBad hf hL hp.le hp.an hp.sl hp.ls, by rw [hp.le]; simp⟩
+  exact ⟨h.freeBad hf hL hp.le hp.an hp.sl hp.ls hp.free, by rw [hp.le]; simp⟩
 
 theorem finalizeOrFree_inv {cfg : Cfg} {g : Geo} {pos pL pC pC' : Int} {ex : Option Nat} {st : St} {f : Nat}
-    (h : InvCore cfg pL pC ex st) (hf : (st.le f).state = .loading) (hpL : pL ≤ g.slots)
-    (hb : ∀ x, slotOk g pos x = true → x < pL ∧ x < pC') (hpc : pC ≤ pC')
+    (h : InvCore cfg img pL pC ex st) (hf : (st.le f).state = .loading) (hpL : pL ≤ g.slots)
+    (hb : ∀ x, slotOk g pos x = true → x < pL ∧ x < pC') (hpc : pC ≤ pC') (hcl : pC ≤ pL)
     (hsz : (st.an f).sfs = 0 ∨ (st.le f).size ≤ (st.an f).sfs) :
-    Sat (finalizeOrFree cfg g pos st f) (fun st' => InvCore cfg pL pC' ex st' ∧ (st'.le f).state ≠ .loading) := by
+    Sat (finalizeOrFree cfg g pos st f) (fun st' => InvCore cfg img pL pC' ex st' ∧ (st'.le f).state ≠ .loading) := by
   obtain ⟨_, ⟨L, hL⟩, _⟩ := h.loading f hf
   refine Sat.mono (finalizeOrFree_sat cfg g pos st f L hL.chain (loadingWith_length hL hpL)) ?_
   rintro st' ⟨C, hok | hfr⟩
@@ -61,13 +78,13 @@ theorem finalizeOrFree_inv {cfg : Cfg} {g : Geo} {pos pL pC pC' : Int} {ex : Opt
     have hCp : ∀ x ∈ C, x < pL := by
       intro x hx
       exact (hb x (hfr.marked x hx)).1
-    have hM : InvCore cfg pL pC ex stM := h.markFinal (st' := stM) rfl rfl rfl rfl hCp
+    have hM : InvCore cfg img pL pC ex stM := h.markFinal (st' := stM) rfl rfl rfl rfl rfl hCp hcl
     have hLM : LoadingWith pL stM f L := hL.transfer rfl (Int.le_refl _) (by
       intro x _
       show ((SquidModel.Rock.markFinal st.ls C) x).more = _ ∧ ((SquidModel.Rock.markFinal st.ls C) x).freed = _ ∧
         ((SquidModel.Rock.markFinal st.ls C) x).owner = _
       by_cases hx : x ∈ C <;> simp [SquidModel.Rock.markFinal, hx])
-    have := hM.freeBad (st' := st') hf hLM hfr.le hfr.an hfr.sl hfr.ls
+    have := hM.freeBad (st' := st') hf hLM hfr.le hfr.an hfr.sl hfr.ls hfr.free
     exact ⟨this.mono hpc, by rw [hfr.le]; simp⟩
 
 end SquidModel.Rock
@@ -77,9 +94,10 @@ namespace SquidModel.Rock
 /-! ### chainSlots -/
 
 theorem chainSlot_sat {cfg : Cfg} {g : Geo} {p : Int} {st : St} {f : Nat}
-    (h : InvCore cfg p p none st) (hf : (st.le f).state = .loading) :
+    (h : InvCore cfg img p p none st) (hf : (st.le f).state = .loading) :
     Sat (chainSlot g p st f p)
-      (fun st1 => InvCore cfg (p + 1) p (some f) st1 ∧ st1.le = st.le ∧ (st1.an f).sfs = (st.an f).sfs) := by
+      (fun st1 => InvCore cfg img (p + 1) p (some f) st1 ∧ st1.le = st.le ∧ (st1.an f).sfs = (st.an f).sfs ∧
+        (st1.ls p).owner = (f : Int) ∧ (st1.ls p).mapped = false ∧ (st1.ls p).freed = false) := by
   obtain ⟨hw, ⟨L, hL⟩, _⟩ := h.loading f hf
   have hfreshp := h.fresh p (Int.le_refl _)
   unfold chainSlot
@@ -113,16 +131,18 @@ theorem chainSlot_sat {cfg : Cfg} {g : Geo} {p : Int} {st : St} {f : Nat}
         simp only [ls2, ls1, upd_other _ _ _ _ (Ne.symm hinop), upd_same]
       have hls2_ino : ls2 ino = { st.ls ino with more := p } := by
         simp only [ls2, ls1, upd_same, upd_other _ _ _ _ hinop]
-      have hfin : ∀ x, (ls2 x).finalized = (st.ls x).finalized := by
+      have hfin : ∀ x, (ls2 x).finalized = (st.ls x).finalized ∧ (ls2 x).mapped = (st.ls x).mapped ∧
+          (ls2 x).freed = (st.ls x).freed ∧ (x ≠ p → (ls2 x).owner = (st.ls x).owner) := by
         intro x
         by_cases h1 : x = ino
-        · subst h1; rw [hls2_ino]
+        · subst h1; rw [hls2_ino]; exact ⟨rfl, rfl, rfl, fun _ => rfl⟩
         · by_cases h2 : x = p
-          · subst h2; rw [hls2_p]
-          · rw [hls2_other x h2 h1]
-      refine Sat.pure ⟨?_, rfl, rfl⟩
-      show InvCore cfg (p + 1) p (some f) { st with ls := ls2 }
-      refine ⟨?_, h.noIgn, h.idle, ?_, ?_, ?_⟩
+          · subst h2; rw [hls2_p]; exact ⟨rfl, rfl, rfl, fun e => absurd rfl e⟩
+          · rw [hls2_other x h2 h1]; exact ⟨rfl, rfl, rfl, fun _ => rfl⟩
+      refine Sat.pure ⟨?_, rfl, rfl, by show (ls2 p).owner = _; rw [hls2_p],
+        by show (ls2 p).mapped = _; rw [hls2_p, hfreshp.1], by show (ls2 p).freed = _; rw [hls2_p, hfreshp.1]⟩
+      show InvCore cfg img (p + 1) p (some f) { st with ls := ls2 }
+      refine ⟨?_, h.noIgn, h.idle, ?_, ?_, ?_, ?_, ?_⟩
       · intro x hx
         have h1 : x ≠ p := by omega
         have h2 : x ≠ ino := by have := (hL.range ino (List.mem_cons_self ..)).2; omega
@@ -185,25 +205,45 @@ theorem chainSlot_sat {cfg : Cfg} {g : Geo} {p : Int} {st : St} {f : Nat}
           exact ⟨rfl, rfl, rfl⟩
       · intro k hk
         obtain ⟨hwk, C, hC⟩ := h.loaded k hk
-        refine ⟨hwk, C, hC.transfer rfl rfl (Int.le_refl _) ?_⟩
-        intro x hx
-        exact ⟨rfl, by show (ls2 x).finalized = true; rw [hfin x]; exact hC.fin x hx⟩
+        have hCp : ∀ x ∈ C, x ≠ p := fun x hx => by have := (hC.range x hx).2; omega
+        refine ⟨hwk, C, hC.transfer rfl rfl (Int.le_refl _) ?_ ?_ ?_⟩
+        · intro x hx
+          exact ⟨rfl, by show (ls2 x).finalized = true; rw [(hfin x).1]; exact hC.fin x hx⟩
+        · intro x hx; show (ls2 x).mapped = true; rw [(hfin x).2.1]; exact (hC.cells x hx).1
+        · intro _ x hx a b c
+          exact ⟨by show (ls2 x).owner = _; rw [(hfin x).2.2.2 (hCp x hx)]; exact a,
+            by show (ls2 x).freed = _; rw [(hfin x).2.2.1]; exact b, c⟩
       · exact h.disj
+      · intro x hx
+        show (ls2 x).freed = true ∨ (ls2 x).finalized = true
+        rw [(hfin x).1, (hfin x).2.2.1]; exact h.fz x hx
+      · intro x hx
+        have hx' : (ls2 x).mapped = true := hx
+        rw [(hfin x).2.1] at hx'
+        have hxp : x ≠ p := by
+          intro e; subst e; rw [hfreshp.1] at hx'; cases hx'
+        obtain ⟨hd, hu, ho, hs⟩ := h.disk x hx'
+        refine ⟨hd, hu, by show (ls2 x).owner = _; rw [(hfin x).2.2.2 hxp]; exact ho, ?_⟩
+        intro hf'
+        have hf'' : (ls2 x).finalized = false := hf'
+        rw [(hfin x).1] at hf''
+        exact hs hf''
   · simp only [hanch, if_false, Bool.false_eq_true]
     let ls1 := upd st.ls p { st.ls p with more := (st.an f).start, owner := (f : Int) }
     let an1 := upd st.an f { st.an f with start := p }
     have hls1_other : ∀ x, x ≠ p → ls1 x = st.ls x := fun x hx => by simp only [ls1, upd_other _ _ _ _ hx]
     have hls1_p : ls1 p = { st.ls p with more := (st.an f).start, owner := (f : Int) } := by simp only [ls1, upd_same]
     have han1_other : ∀ k, k ≠ f → an1 k = st.an k := fun k hk => by simp only [an1, upd_other _ _ _ _ hk]
-    have hfin : ∀ x, (ls1 x).finalized = (st.ls x).finalized := by
+    have hfin : ∀ x, (ls1 x).finalized = (st.ls x).finalized ∧ (ls1 x).mapped = (st.ls x).mapped ∧
+        (ls1 x).freed = (st.ls x).freed ∧ (x ≠ p → (ls1 x).owner = (st.ls x).owner) := by
       intro x
       by_cases h2 : x = p
-      · subst h2; rw [hls1_p]
-      · rw [hls1_other x h2]
-    have hstf : ∀ k, (st.le k).state = .loading ∨ True → True := fun _ _ => trivial
-    refine Sat.pure ⟨?_, rfl, by simp⟩
-    show InvCore cfg (p + 1) p (some f) { st with ls := ls1, an := an1 }
-    refine ⟨?_, h.noIgn, ?_, ?_, ?_, ?_⟩
+      · subst h2; rw [hls1_p]; exact ⟨rfl, rfl, rfl, fun e => absurd rfl e⟩
+      · rw [hls1_other x h2]; exact ⟨rfl, rfl, rfl, fun _ => rfl⟩
+    refine Sat.pure ⟨?_, rfl, by simp, by show (ls1 p).owner = _; rw [hls1_p],
+      by show (ls1 p).mapped = _; rw [hls1_p, hfreshp.1], by show (ls1 p).freed = _; rw [hls1_p, hfreshp.1]⟩
+    show InvCore cfg img (p + 1) p (some f) { st with ls := ls1, an := an1 }
+    refine ⟨?_, h.noIgn, ?_, ?_, ?_, ?_, ?_, ?_⟩
     · intro x hx
       show ls1 x = {} ∧ st.sl x = {}
       rw [hls1_other x (by omega)]
@@ -253,10 +293,15 @@ theorem chainSlot_sat {cfg : Cfg} {g : Geo} {p : Int} {st : St} {f : Nat}
         intro e; subst e
         rw [hf] at hk; cases hk
       obtain ⟨hwk, C, hC⟩ := h.loaded k hk
+      have hCp : ∀ x ∈ C, x ≠ p := fun x hx => by have := (hC.range x hx).2; omega
       refine ⟨by show (an1 k).writing = false; rw [han1_other k hkf]; exact hwk, C,
-        hC.transfer (han1_other k hkf) rfl (Int.le_refl _) ?_⟩
-      intro x hx
-      exact ⟨rfl, by show (ls1 x).finalized = true; rw [hfin x]; exact hC.fin x hx⟩
+        hC.transfer (han1_other k hkf) rfl (Int.le_refl _) ?_ ?_ ?_⟩
+      · intro x hx
+        exact ⟨rfl, by show (ls1 x).finalized = true; rw [(hfin x).1]; exact hC.fin x hx⟩
+      · intro x hx; show (ls1 x).mapped = true; rw [(hfin x).2.1]; exact (hC.cells x hx).1
+      · intro _ x hx a b c
+        exact ⟨by show (ls1 x).owner = _; rw [(hfin x).2.2.2 (hCp x hx)]; exact a,
+          by show (ls1 x).freed = _; rw [(hfin x).2.2.1]; exact b, c⟩
     · refine disj_transfer h.disj ?_
       intro k hk
       have hkf : k ≠ f := by
@@ -265,6 +310,20 @@ theorem chainSlot_sat {cfg : Cfg} {g : Geo} {p : Int} {st : St} {f : Nat}
         rw [hf] at hk'; cases hk'
       obtain ⟨_, C, hC⟩ := h.loaded k hk
       exact ⟨hk, by show (an1 k).start = _; rw [han1_other k hkf], C, hC.chain, hC.chain⟩
+    · intro x hx
+      show (ls1 x).freed = true ∨ (ls1 x).finalized = true
+      rw [(hfin x).1, (hfin x).2.2.1]; exact h.fz x hx
+    · intro x hx
+      have hx' : (ls1 x).mapped = true := hx
+      rw [(hfin x).2.1] at hx'
+      have hxp : x ≠ p := by
+        intro e; subst e; rw [hfreshp.1] at hx'; cases hx'
+      obtain ⟨hd, hu, ho, hs⟩ := h.disk x hx'
+      refine ⟨hd, hu, by show (ls1 x).owner = _; rw [(hfin x).2.2.2 hxp]; exact ho, ?_⟩
+      intro hf'
+      have hf'' : (ls1 x).finalized = false := hf'
+      rw [(hfin x).1] at hf''
+      exact hs hf''
 
 end SquidModel.Rock
 
@@ -273,22 +332,24 @@ namespace SquidModel.Rock
 /-! ### addSlotToEntry -/
 
 /-- the state in the middle of addSlotToEntry: slot `p` is chained into the Loading entry `f` -/
-structure Mid (cfg : Cfg) (g : Geo) (p : Int) (f : Nat) (st : St) : Prop where
-  core : InvCore cfg (p + 1) p (some f) st
+structure Mid (cfg : Cfg) (img : List RawSlot) (g : Geo) (p : Int) (f : Nat) (hd : Header) (st : St) : Prop where
+  core : InvCore cfg img (p + 1) p (some f) st
   loading : (st.le f).state = .loading
   room : p + 1 ≤ g.slots
+  cell : usableAt cfg img p = some hd
+  owner : (st.ls p).owner = (fileOf cfg img hd : Int)
 
-theorem Mid.freeBad {cfg : Cfg} {g : Geo} {p : Int} {f : Nat} {st : St} (h : Mid cfg g p f st) :
-    Sat (freeBadEntry g p st f) (Inv cfg (p + 1)) := by
+theorem Mid.freeBad {cfg : Cfg} {g : Geo} {p : Int} {f : Nat} {st : St} (h : Mid cfg img g p f hd st) :
+    Sat (freeBadEntry g p st f) (Inv cfg img (p + 1)) := by
   refine Sat.mono (freeBad_inv h.core h.loading h.room) ?_
   rintro st' ⟨hc, hs⟩
   refine (hc.mono (by omega)).close ?_
   intro hl; rw [hs] at hl; cases hl
 
-theorem Mid.setLe {cfg : Cfg} {g : Geo} {p : Int} {f : Nat} {st : St} (h : Mid cfg g p f st) (e : LEntry)
-    (he : e.state = .loading) : Mid cfg g p f { st with le := upd st.le f e } := by
+theorem Mid.setLe {cfg : Cfg} {g : Geo} {p : Int} {f : Nat} {st : St} (h : Mid cfg img g p f hd st) (e : LEntry)
+    (he : e.state = .loading) : Mid cfg img g p f hd { st with le := upd st.le f e } := by
   obtain ⟨hw, _, _⟩ := h.core.loading f h.loading
-  refine ⟨h.core.tweak (e := e) (a := st.an f) h.loading he hw rfl (fun hne => absurd rfl hne) rfl ?_ rfl rfl, ?_, h.room⟩
+  refine ⟨h.core.tweak (e := e) (a := st.an f) h.loading he hw rfl (fun hne => absurd rfl hne) rfl ?_ rfl rfl rfl, ?_, h.room, h.cell, h.owner⟩
   · show st.an = upd st.an f (st.an f)
     funext k
     by_cases hk : k = f
@@ -297,24 +358,24 @@ theorem Mid.setLe {cfg : Cfg} {g : Geo} {p : Int} {f : Nat} {st : St} (h : Mid c
   · show (upd st.le f e f).state = .loading
     simpa using he
 
-theorem Mid.setAn {cfg : Cfg} {g : Geo} {p : Int} {f : Nat} {st : St} (h : Mid cfg g p f st) (a : Anchor)
-    (ha : a.writing = true) (has : a.start = (st.an f).start) : Mid cfg g p f { st with an := upd st.an f a } := by
-  refine ⟨h.core.tweak (e := st.le f) (a := a) h.loading h.loading ha has (fun hne => absurd rfl hne) ?_ rfl rfl rfl, h.loading, h.room⟩
+theorem Mid.setAn {cfg : Cfg} {g : Geo} {p : Int} {f : Nat} {st : St} (h : Mid cfg img g p f hd st) (a : Anchor)
+    (ha : a.writing = true) (has : a.start = (st.an f).start) : Mid cfg img g p f hd { st with an := upd st.an f a } := by
+  refine ⟨h.core.tweak (e := st.le f) (a := a) h.loading h.loading ha has (fun hne => absurd rfl hne) ?_ rfl rfl rfl rfl, h.loading, h.room, h.cell, h.owner⟩
   show st.le = upd st.le f (st.le f)
   funext k
   by_cases hk : k = f
   · subst hk; simp
   · simp [upd_other _ _ _ _ hk]
 
-theorem Mid.setCnt {cfg : Cfg} {g : Geo} {p : Int} {f : Nat} {st : St} (h : Mid cfg g p f st) (c : Counts) :
-    Mid cfg g p f { st with cnt := c } :=
-  ⟨h.core.congr rfl rfl rfl rfl, h.loading, h.room⟩
+theorem Mid.setCnt {cfg : Cfg} {g : Geo} {p : Int} {f : Nat} {st : St} (h : Mid cfg img g p f hd st) (c : Counts) :
+    Mid cfg img g p f hd { st with cnt := c } :=
+  ⟨h.core.congr rfl rfl rfl rfl rfl, h.loading, h.room, h.cell, h.owner⟩
 
-theorem Inv.setCnt {cfg : Cfg} {p : Int} {st : St} (h : Inv cfg p st) (c : Counts) : Inv cfg p { st with cnt := c } :=
-  InvCore.congr h rfl rfl rfl rfl
+theorem Inv.setCnt {cfg : Cfg} {p : Int} {st : St} (h : Inv cfg img p st) (c : Counts) : Inv cfg img p { st with cnt := c } :=
+  InvCore.congr h rfl rfl rfl rfl rfl
 
-theorem addTail_sat {cfg : Cfg} {g : Geo} {p : Int} {f : Nat} {st : St} {hd : Header} (h : Mid cfg g p f st) :
-    Sat (addSlotToEntry.addTail cfg g p st f p hd) (Inv cfg (p + 1)) := by
+theorem addTail_sat {cfg : Cfg} {g : Geo} {p : Int} {f : Nat} {st : St} {hd : Header} (h : Mid cfg img g p f hd st) :
+    Sat (addSlotToEntry.addTail cfg g p st f p hd) (Inv cfg img (p + 1)) := by
   unfold addSlotToEntry.addTail
   by_cases hover : (st.an f).sfs > 0 ∧ (st.le f).size > (st.an f).sfs
   · simp only [hover, and_self, if_true]
@@ -322,13 +383,13 @@ theorem addTail_sat {cfg : Cfg} {g : Geo} {p : Int} {f : Nat} {st : St} {hd : He
   · simp only [hover, if_false]
     refine Sat.bind (mapSlot_sat g p st p hd) ?_
     intro st1 hm
-    have hc1 : InvCore cfg (p + 1) p (some f) st1 := h.core.mapSlot hm
+    have hc1 : InvCore cfg img (p + 1) p (some f) st1 := h.core.mapSlot hm h.cell h.owner
     have hl1 : (st1.le f).state = .loading := by rw [hm.le]; exact h.loading
     have hle : st1.le f = st.le f := by rw [hm.le]
     have han : st1.an f = st.an f := by rw [hm.an]
     by_cases hfull : (st.an f).sfs > 0 ∧ (st1.le f).size = (st.an f).sfs
     · simp only [hfull, and_self, if_true]
-      refine Sat.mono (finalizeOrFree_inv (pC' := p + 1) hc1 hl1 h.room ?_ (by omega) ?_) ?_
+      refine Sat.mono (finalizeOrFree_inv (pC' := p + 1) hc1 hl1 h.room ?_ (by omega) (by omega) ?_) ?_
       · intro x hx
         simp only [slotOk, Bool.and_eq_true, decide_eq_true_eq] at hx
         omega
@@ -343,14 +404,15 @@ theorem addTail_sat {cfg : Cfg} {g : Geo} {p : Int} {f : Nat} {st : St} {hd : He
       omega
 
 theorem addSlotToEntry_sat {cfg : Cfg} {g : Geo} {p : Int} {f : Nat} {st : St} {hd : Header} {m : Meta}
-    (h : Inv cfg p st) (hf : (st.le f).state = .loading) (hroom : p + 1 ≤ g.slots) :
-    Sat (addSlotToEntry cfg g p st f p hd m) (Inv cfg (p + 1)) := by
+    (h : Inv cfg img p st) (hf : (st.le f).state = .loading) (hroom : p + 1 ≤ g.slots)
+    (hu : usableAt cfg img p = some hd) (hfile : f = fileOf cfg img hd) :
+    Sat (addSlotToEntry cfg g p st f p hd m) (Inv cfg img (p + 1)) := by
   unfold addSlotToEntry
   refine Sat.check (by decide) fun _ => ?_
   refine Sat.check (by decide) fun _ => ?_
   refine Sat.bind (chainSlot_sat h hf) ?_
-  rintro st1 ⟨hc1, hle1, _⟩
-  have hmid1 : Mid cfg g p f st1 := ⟨hc1, by rw [hle1]; exact hf, hroom⟩
+  rintro st1 ⟨hc1, hle1, _, hown1, _, _⟩
+  have hmid1 : Mid cfg img g p f hd st1 := ⟨hc1, by rw [hle1]; exact hf, hroom, hu, by rw [hown1, hfile]⟩
   have hmid2 := hmid1.setLe { st1.le f with size := (st1.le f).size + hd.payloadSize } hmid1.loading
   simp only
   by_cases hino : hd.firstSlot = p
@@ -392,15 +454,16 @@ namespace SquidModel.Rock
 /-! ### startNewEntry / useNewSlot / loadOneSlot -/
 
 /-- `openForWritingAt` + `primeNewEntry` on an Empty position -/
-theorem InvCore.begin {cfg : Cfg} {p : Int} {st st' : St} {f : Nat} {e : LEntry} {a : Anchor} (h : InvCore cfg p p none st)
+theorem InvCore.begin {cfg : Cfg} {p : Int} {st st' : St} {f : Nat} {e : LEntry} {a : Anchor} (h : InvCore cfg img p p none st)
     (hf : (st.le f).state = .empty) (he : e.state = .loading) (ha : a.writing = true) (has : a.start = -1) (hsz : a.sfs = 0)
-    (hle : st'.le = upd st.le f e) (han : st'.an = upd st.an f a) (hls : st'.ls = st.ls) (hsl : st'.sl = st.sl) :
-    InvCore cfg p p none st' := by
+    (hle : st'.le = upd st.le f e) (han : st'.an = upd st.an f a) (hls : st'.ls = st.ls) (hsl : st'.sl = st.sl)
+    (hfree : st'.free = st.free) :
+    InvCore cfg img p p none st' := by
   have hnext : st'.next = st.next := by funext x; simp [St.next, hsl]
   have hstate : ∀ k, k ≠ f → st'.le k = st.le k := fun k hk => by rw [hle, upd_other _ _ _ _ hk]
   have hanch : ∀ k, k ≠ f → st'.an k = st.an k := fun k hk => by rw [han, upd_other _ _ _ _ hk]
   have hstf : (st'.le f).state = .loading := by rw [hle]; simpa using he
-  refine ⟨?_, ?_, ?_, ?_, ?_, ?_⟩
+  refine ⟨?_, ?_, ?_, ?_, ?_, ?_, by rw [hfree, hls]; exact h.fz, by rw [hls, hsl]; exact h.disk⟩
   · intro x hx; rw [hls, hsl]; exact h.fresh x hx
   · intro k
     by_cases hk : k = f
@@ -430,9 +493,12 @@ theorem InvCore.begin {cfg : Cfg} {p : Int} {st st' : St} {f : Nat} {e : LEntry}
       intro e'; subst e'; rw [hstf] at hk; cases hk
     rw [hstate k hkf] at hk
     obtain ⟨hw, C, hC⟩ := h.loaded k hk
-    refine ⟨by rw [hanch k hkf]; exact hw, C, hC.transfer (hanch k hkf) (by rw [hstate k hkf]) (Int.le_refl _) ?_⟩
-    intro x hx
-    exact ⟨by rw [hsl], by rw [hls]; exact hC.fin x hx⟩
+    refine ⟨by rw [hanch k hkf]; exact hw, C, hC.transfer (hanch k hkf) (by rw [hstate k hkf]) (Int.le_refl _) ?_ ?_ ?_⟩
+    · intro x hx
+      exact ⟨by rw [hsl], by rw [hls]; exact hC.fin x hx⟩
+    · intro x hx; rw [hls]; exact (hC.cells x hx).1
+    · intro _ x _ a b c
+      exact ⟨by rw [hls]; exact a, by rw [hls]; exact b, by rw [hfree]; exact c⟩
   · refine disj_transfer h.disj ?_
     intro k hk
     have hkf : k ≠ f := by
@@ -443,17 +509,18 @@ theorem InvCore.begin {cfg : Cfg} {p : Int} {st st' : St} {f : Nat} {e : LEntry}
     rw [hnext]; exact hC.chain
 
 theorem startNewEntry_sat {cfg : Cfg} {g : Geo} {p : Int} {f : Nat} {st : St} {hd : Header} {m : Meta}
-    (h : Inv cfg p st) (hf : (st.le f).state = .empty) (hroom : p + 1 ≤ g.slots) :
-    Sat (startNewEntry cfg g p st f p hd m) (Inv cfg (p + 1)) := by
+    (h : Inv cfg img p st) (hf : (st.le f).state = .empty) (hroom : p + 1 ≤ g.slots)
+    (hu : usableAt cfg img p = some hd) (hfile : f = fileOf cfg img hd) :
+    Sat (startNewEntry cfg g p st f p hd m) (Inv cfg img (p + 1)) := by
   have ha : st.an f = {} := h.idle f (Or.inl hf)
   unfold startNewEntry
   simp only [ha, Bool.false_eq_true, if_false, keyEmpty, BEq.rfl, Bool.and_self, Bool.not_true, Bool.or_self, Bool.and_false]
   refine Sat.check (by decide) fun _ => ?_
   simp only [upd_same]
-  refine Sat.bind (m := addSlotToEntry cfg g p _ f p hd m) (P := Inv cfg (p + 1)) ?_ ?_
-  · refine addSlotToEntry_sat ?_ ?_ hroom
+  refine Sat.bind (m := addSlotToEntry cfg g p _ f p hd m) (P := Inv cfg img (p + 1)) ?_ ?_
+  · refine addSlotToEntry_sat ?_ ?_ hroom hu hfile
     · refine h.begin (f := f) (e := { st.le f with state := .loading, version := hd.version, size := 0 })
-        (a := { writing := true, key := hd.key, start := -1 }) hf rfl rfl rfl rfl ?_ ?_ rfl rfl
+        (a := { writing := true, key := hd.key, start := -1 }) hf rfl rfl rfl rfl ?_ ?_ rfl rfl rfl
       · rfl
       · show _ = upd st.an f _
         funext k
@@ -466,17 +533,19 @@ theorem startNewEntry_sat {cfg : Cfg} {g : Geo} {p : Int} {f : Nat} {st : St} {h
     exact Sat.pure h4
 
 theorem useNewSlot_sat {cfg : Cfg} {g : Geo} {pos : Nat} {st : St} {hd : Header} {m : Meta}
-    (h : Inv cfg pos st) (hroom : pos + 1 ≤ g.slots) :
-    Sat (useNewSlot cfg g pos st pos hd m) (Inv cfg ((pos : Int) + 1)) := by
+    (h : Inv cfg img pos st) (hroom : pos + 1 ≤ g.slots) (hg : g = cfg.geo img.length)
+    (hu : usableAt cfg img (pos : Int) = some hd) :
+    Sat (useNewSlot cfg g pos st pos hd m) (Inv cfg img ((pos : Int) + 1)) := by
   have hroom' : (pos : Int) + 1 ≤ g.slots := by omega
+  have hfile : fileNo g hd.key = fileOf cfg img hd := by rw [hg]; rfl
   unfold useNewSlot
   refine Sat.check (by decide) fun _ => ?_
   split
-  · rename_i hs; exact startNewEntry_sat h hs hroom'
+  · rename_i hs; exact startNewEntry_sat h hs hroom' hu hfile
   · rename_i hs
     refine Sat.check (by decide) fun _ => ?_
     split
-    · exact addSlotToEntry_sat h hs hroom'
+    · exact addSlotToEntry_sat h hs hroom' hu hfile
     · refine Sat.bind (freeBad_inv h hs (by omega)) ?_
       rintro st1 ⟨h1, _⟩
       refine Sat.bind (freeUnusedSlot_sat g pos st1 pos true) ?_
@@ -487,7 +556,7 @@ theorem useNewSlot_sat {cfg : Cfg} {g : Geo} {pos : Nat} {st : St} {hd : Header}
     have hlen : C.length ≤ g.slots := nodup_inRange_length hC.nodup (hC.range.mono (by omega))
     refine Sat.bind (mapFreeEntry_sat g _ _ C (by simpa using hw) hC.chain hC.nodup hlen) ?_
     intro st2 h2
-    have hinv2 : InvCore cfg pos pos none st2 := h.mapFree hs hC h2.le h2.an h2.ls h2.sl
+    have hinv2 : InvCore cfg img pos pos none st2 := h.mapFree hs hC h2.le h2.an h2.ls h2.sl h2.free
     refine Sat.bind (freeUnusedSlot_sat g pos st2 pos true) ?_
     intro st3 h3
     exact Sat.pure (Inv.setCnt (hinv2.freeUnused h3) _)
@@ -495,8 +564,8 @@ theorem useNewSlot_sat {cfg : Cfg} {g : Geo} {pos : Nat} {st : St} {hd : Header}
   · exact Sat.mono (freeUnusedSlot_sat g pos st pos false) (fun st' hp => h.freeUnused hp)
 
 theorem loadOneSlot_sat {cfg : Cfg} {g : Geo} {pos : Nat} {st : St} {raw : RawSlot}
-    (h : Inv cfg pos st) (hroom : pos + 1 ≤ g.slots) :
-    Sat (loadOneSlot cfg g st pos raw) (Inv cfg ((pos : Int) + 1)) := by
+    (h : Inv cfg img pos st) (hroom : pos + 1 ≤ g.slots) (hg : g = cfg.geo img.length) (hget : img[pos]? = some raw) :
+    Sat (loadOneSlot cfg g st pos raw) (Inv cfg img ((pos : Int) + 1)) := by
   unfold loadOneSlot
   have h0 := h.setCnt { st.cnt with scan := st.cnt.scan + 1 }
   cases raw with
@@ -505,41 +574,54 @@ theorem loadOneSlot_sat {cfg : Cfg} {g : Geo} {pos : Nat} {st : St} {raw : RawSl
     simp only
     split
     · exact Sat.mono (freeUnusedSlot_sat g pos _ pos false) (fun st' hp => h0.freeUnused hp)
-    · split
+    · rename_i hne
+      split
       · exact Sat.mono (freeUnusedSlot_sat g pos _ pos true) (fun st' hp => h0.freeUnused hp)
-      · exact useNewSlot_sat h0 hroom
+      · rename_i hsane
+        refine useNewSlot_sat h0 hroom hg (usableAt_of_get hget (by simpa using hne) ?_)
+        have : g.slots = img.length := by rw [hg]; rfl
+        rw [← this]
+        simpa using hsane
 
-theorem loadAll_sat {cfg : Cfg} {g : Geo} : ∀ (rest : List RawSlot) (pos : Nat) (st : St),
-    Inv cfg pos st → pos + rest.length = g.slots → Sat (loadAll cfg g rest pos st) (Inv cfg g.slots) := by
+theorem loadAll_sat {cfg : Cfg} {img : List RawSlot} {g : Geo} (hg : g = cfg.geo img.length) :
+    ∀ (rest : List RawSlot) (pos : Nat) (st : St),
+    Inv cfg img pos st → pos + rest.length = g.slots → img.drop pos = rest →
+    Sat (loadAll cfg g rest pos st) (Inv cfg img g.slots) := by
   intro rest
   induction rest with
   | nil =>
-    intro pos st h hl
+    intro pos st h hl _
     simp only [List.length_nil, Nat.add_zero] at hl
     subst hl
     exact Sat.pure h
   | cons raw rest ih =>
-    intro pos st h hl
+    intro pos st h hl hdrop
     simp only [List.length_cons] at hl
     unfold loadAll
-    refine Sat.bind (loadOneSlot_sat h (by omega)) ?_
+    have hget : img[pos]? = some raw := by
+      have : (img.drop pos)[0]? = some raw := by rw [hdrop]; rfl
+      simpa using this
+    have hdrop' : img.drop (pos + 1) = rest := by
+      have : (img.drop pos).drop 1 = rest := by rw [hdrop]; rfl
+      simpa [List.drop_drop, Nat.add_comm] using this
+    refine Sat.bind (loadOneSlot_sat h (by omega) hg hget) ?_
     intro st1 h1
-    have h1' : Inv cfg ((pos + 1 : Nat) : Int) st1 := by
+    have h1' : Inv cfg img ((pos + 1 : Nat) : Int) st1 := by
       have : ((pos + 1 : Nat) : Int) = (pos : Int) + 1 := by omega
       rw [this]; exact h1
-    exact ih (pos + 1) st1 h1' (by omega)
+    exact ih (pos + 1) st1 h1' (by omega) hdrop'
 
 /-! ### validation -/
 
-theorem validateOneEntry_sat {cfg : Cfg} {g : Geo} {st : St} {f : Nat} (h : Inv cfg g.slots st) :
-    Sat (validateOneEntry cfg g st f) (Inv cfg g.slots) := by
+theorem validateOneEntry_sat {cfg : Cfg} {g : Geo} {st : St} {f : Nat} (h : Inv cfg img g.slots st) :
+    Sat (validateOneEntry cfg g st f) (Inv cfg img g.slots) := by
   unfold validateOneEntry
   have h0 := h.setCnt { st.cnt with validations := st.cnt.validations + 1 }
   simp only
   split
   · rename_i hs
     have hsz := (h0.loading f hs).2.2 (by simp)
-    refine Sat.mono (finalizeOrFree_inv (pC' := g.slots) h0 hs (Int.le_refl _) ?_ (Int.le_refl _) ?_) (fun st' hp => hp.1)
+    refine Sat.mono (finalizeOrFree_inv (pC' := g.slots) h0 hs (Int.le_refl _) ?_ (Int.le_refl _) (Int.le_refl _) ?_) (fun st' hp => hp.1)
     · intro x hx
       simp only [slotOk, Bool.and_eq_true, decide_eq_true_eq] at hx
       omega
@@ -548,8 +630,8 @@ theorem validateOneEntry_sat {cfg : Cfg} {g : Geo} {st : St} {f : Nat} (h : Inv 
       | inr e => exact Or.inr (Nat.le_of_lt e)
   · exact Sat.pure h0
 
-theorem validateEntries_sat {cfg : Cfg} {g : Geo} : ∀ (n f : Nat) (st : St), Inv cfg g.slots st →
-    Sat (validateEntries cfg g n f st) (Inv cfg g.slots) := by
+theorem validateEntries_sat {cfg : Cfg} {g : Geo} : ∀ (n f : Nat) (st : St), Inv cfg img g.slots st →
+    Sat (validateEntries cfg g n f st) (Inv cfg img g.slots) := by
   intro n
   induction n with
   | zero => intro f st h; exact Sat.pure h
@@ -558,15 +640,15 @@ theorem validateEntries_sat {cfg : Cfg} {g : Geo} : ∀ (n f : Nat) (st : St), I
     unfold validateEntries
     exact Sat.bind (validateOneEntry_sat h) (fun st1 h1 => ih (f + 1) st1 h1)
 
-theorem validateSlots_sat {cfg : Cfg} {g : Geo} : ∀ (n s : Nat) (st : St), Inv cfg g.slots st →
-    Sat (validateSlots g n s st) (Inv cfg g.slots) := by
+theorem validateSlots_sat {cfg : Cfg} {g : Geo} : ∀ (n s : Nat) (st : St), Inv cfg img g.slots st →
+    Sat (validateSlots g n s st) (Inv cfg img g.slots) := by
   intro n
   induction n with
   | zero => intro s st h; exact Sat.pure h
   | succ n ih =>
     intro s st h
     unfold validateSlots
-    refine Sat.bind (m := validateOneSlot g st s) (P := Inv cfg g.slots) ?_ (fun st1 h1 => ih (s + 1) st1 h1)
+    refine Sat.bind (m := validateOneSlot g st s) (P := Inv cfg img g.slots) ?_ (fun st1 h1 => ih (s + 1) st1 h1)
     unfold validateOneSlot
     refine Sat.check (by decide) fun _ => ?_
     refine Sat.check (by decide) fun _ => ?_
@@ -574,10 +656,10 @@ theorem validateSlots_sat {cfg : Cfg} {g : Geo} : ∀ (n s : Nat) (st : St), Inv
 
 /-- the whole rebuild: never out of fuel, and the invariant holds at the end -/
 theorem rebuild_sat (cfg : Cfg) (img : List RawSlot) :
-    Sat (rebuild cfg img) (Inv cfg (cfg.geo img.length).slots) := by
+    Sat (rebuild cfg img) (Inv cfg img (cfg.geo img.length).slots) := by
   unfold rebuild
   simp only
-  refine Sat.bind (loadAll_sat img 0 St.init (inv_init cfg) (by simp [Cfg.geo])) ?_
+  refine Sat.bind (loadAll_sat rfl img 0 St.init (inv_init cfg img) (by simp [Cfg.geo]) (by simp)) ?_
   intro st1 h1
   refine Sat.bind (validateEntries_sat _ 0 st1 h1) ?_
   intro st2 h2
